@@ -210,6 +210,7 @@ type Frame struct {
 	ctVars   map[string]*Val
 	nameVals map[string]ssa.Value
 	lastKeyInfo keyInfo
+	freshBase string
 }
 
 func (fr *Frame) val(v ssa.Value) *Val {
@@ -526,6 +527,9 @@ func (fr *Frame) collectNames() {
 					}
 				}
 			}
+		}
+		if os.Getenv("GOVC_DEBUG") != "" {
+			fmt.Fprintln(os.Stderr, "correspondence", fr.fn.Name(), okAll, len(org.Blocks), len(fr.fn.Blocks), len(corr))
 		}
 		if okAll {
 			for i, p := range org.Params {
